@@ -13,8 +13,12 @@ recycled) and WITH it; a program whose base run equals the reference but whose f
 differs - other values, another ending, an abort - is a violation.  Event traces (every assigned
 and returned value) are compared too, so a stale value is seen when it is stored, not only when it
 is printed."""
+import collections
+
 import common
 import langengine as le
+import rndgen
+import tracecheck
 
 
 def profiles(tier):
@@ -41,7 +45,38 @@ def run(tier):
                               {"source": src, "mode": mode, "reference": {"st": c["st"], "out": c["out"]}, "detail": det})
                 else:
                     tally.routed[role + ":" + cls] += 1
+    # V direction: seeded random larger programs, traces recorded WITH the frame arena, validated by
+    # TLC against the reference machine; a trace rejected here while the same program's base
+    # (no frame arena) run is accepted is a reclamation deviation.
+    n = 800 if tier == "quick" else 8000
+    base = common.seed() * 104729
+    progs = [rndgen.program(base + i) for i in range(n)]
+    rec_fn = tracecheck.record(progs, mode="fn", ev=3)
+    out_fn, skipped_fn, r_fn = tracecheck.validate(rec_fn, env=True, timeout=2400, tag="c02fn")
+    suspects = [(rec, vd, case) for rec, vd, case in out_fn if vd["verdict"] in ("reject", "missing")]
+    crashed = [rec for rec in rec_fn if rec["resp"].get("st") in ("CRASH", "PANIC")]
+    recheck = [rec["body"] for rec, _, _ in suspects] + [rec["body"] for rec in crashed]
+    base_ok = {}
+    if recheck:
+        rec_nn = tracecheck.record(recheck, mode="nn", ev=3)
+        out_nn, _, _ = tracecheck.validate([r for r in rec_nn if r["resp"].get("st") not in ("CRASH", "PANIC")], env=True, timeout=1200, tag="c02nn") if rec_nn else ([], None, None)
+        for rec, vd, case in out_nn:
+            base_ok[rec["src"]] = vd["verdict"] in ("accept", "skip")
+        for r in rec_nn:
+            if r["resp"].get("st") in ("CRASH", "PANIC"):
+                base_ok[r["src"]] = False
+    for rec, vd, case in suspects:
+        if base_ok.get(rec["src"]):
+            l = vd.get("l", 1)
+            ev = case["events"]
+            v.finding("trace:%s" % le.core_key(rec["src"]), "with the frame arena the recorded trace is rejected at event %d (reference expected %s, recorded %s); without it the trace is accepted\n%s"
+                      % (l, vd.get("expected"), ev[l - 1] if 0 < l <= len(ev) else "<end>", rec["src"]), {"source": rec["src"], "verdict": vd})
+    for rec in crashed:
+        if base_ok.get(rec["src"]):
+            v.finding("crash-random:%s" % le.core_key(rec["src"]), "crash only with the frame arena: %s\n%s" % (rec["resp"].get("panic") or rec["resp"].get("crash"), rec["src"]), {"source": rec["src"]})
     v.coverage = tally.coverage(exhaustive=True)
+    v.coverage["trace_validation_with_frame_arena"] = {"random_programs": n, "verdicts": dict(collections.Counter(vd["verdict"] for _, vd, _ in out_fn)), "not_validated": dict(skipped_fn)}
+    v.coverage["traces_validated_against_impl"] += sum(1 for _, vd, _ in out_fn if vd["verdict"] == "accept")
     v.assumptions = ["the debug build's poisoning makes a stale read visible as different bytes; a stale read of bytes that happen to be unchanged is caught only through the recycled-slot cases the profiles construct (overwrite, then allocate a same-size string)",
                      "deviations already present without the frame arena belong to C01, crashes there to C06"]
     return v.finish()
